@@ -115,6 +115,11 @@ func runDeleWithdraw(ctx *action.Context, tx action.RawTx) (bool, action.Respons
 	}
 
 	// initiate a withdrawal which matures at block [height+RewardsMaturityTime]
+	// the amount must be a valid (known currency, non-negative) amount: a negative amount raised
+	// the reward balance and was debited from the delegator at maturity without a balance check
+	if !withdraw.Amount.IsValid(ctx.Currencies) {
+		return helpers.LogAndReturnFalse(ctx.Logger, action.ErrInvalidAmount, withdraw.Tags(), errors.New("invalid withdraw amount"))
+	}
 	coinAmt := withdraw.Amount.ToCoin(ctx.Currencies)
 	err = ctx.NetwkDelegators.Rewards.Withdraw(withdraw.Delegator, coinAmt.Amount, height+options.RewardsMaturityTime)
 	if err != nil {
